@@ -35,8 +35,15 @@ class AnchoredTimeStamp(TimeStamp):
 
     def __deepcopy__(self, memo: Any) -> Any:
         """Deeply copy this instance to another."""
-        ts = AnchoredTimeStamp(self.year, self.month, self.day, self.hour, self.minute, self.second)
+        # The copy is the same kind of node (a date stays a date), to the
+        # microsecond, under the same Anchor
+        ts = type(self)(
+            self.year, self.month, self.day, self.hour, self.minute,
+            self.second, self.microsecond)
         ts._yaml = copy.deepcopy(self._yaml)
+        if hasattr(self, Anchor.attrib) and self.anchor.value is not None:
+            ts.yaml_set_anchor(
+                self.anchor.value, always_dump=self.anchor.always_dump)
         return ts
 
     @property
